@@ -89,7 +89,7 @@ def check_x(P, inp, files, tier, scratch):
         return 'undefined', str(u), None
     src = xlang.p_prog(P)
     sp = os.path.join(scratch, 'p.x')
-    open(sp, 'w').write(src)
+    open(sp, 'w', encoding='latin-1').write(src)
     img = os.path.join(scratch, 'p.bin')
     ok, r = toolchain.compile_x(sp, img, scratch)
     if not ok:
@@ -102,7 +102,7 @@ def check_x(P, inp, files, tier, scratch):
 
 def check_tour(items, expected, inp, scratch):
     sp = os.path.join(scratch, 'p.S')
-    open(sp, 'w').write(asmgen.render(items))
+    open(sp, 'w', encoding='latin-1').write(asmgen.render(items))
     img = os.path.join(scratch, 'p.bin')
     ok, r = toolchain.assemble(sp, img, scratch)
     if not ok:
@@ -116,12 +116,12 @@ def gen_case(rng, stats, extra):
     tier = extra['tier']
     with driver.Scratch('c06') as scratch:
         if rng.random() < 0.25:
-            items, expected = asmgen.gen_tour(rng)
+            items, expected = asmgen.gen_tour(rng, huge=0.15)
             inp = bytes(rng.randrange(256) for _ in range(rng.randint(0, 3)))
             verdict, why = check_tour(items, expected, inp, scratch)
             key = (asmgen.render(items), inp)
             nt = len(expected) >= 1
-            classes = ['family:tour', 'verdict:' + verdict]
+            classes = ['family:tour', 'verdict:' + verdict] + (['image>64KiB'] if any(it[0] == 'pad' and it[1] > 60000 for it in items) else [])
             case = dict(kind='tour', items=[list(i) for i in items], expected=expected.hex(), input=inp.hex())
             sample = {'family': 'tour', 'source': asmgen.render(items)[:400]}
         else:
